@@ -147,6 +147,7 @@ let resolve_plan (inp : input) (s : state) (orders : (int * int list) list) (fs 
 
 let run_engine (id, lines) =
   let orders = ref [] in
+  let users = ref [] in
   let stops = ref [] and vehs = ref [] and units = ref [] and drows = ref [] and xrows = ref [] in
   let nres = ref 0 and opts = ref None in
   let inp = ref None and sols = ref [||] and cur = ref 0 and step = ref 0 in
@@ -155,6 +156,13 @@ let run_engine (id, lines) =
   List.iter (fun fs ->
     match fs with
     | "nres" :: [k] -> nres := int_of_string k
+    | ["user"; f; mx; vl; tp] ->
+        let field =
+          (match f with
+           | "pos" -> UPos | "arrival" -> UArrival | "start" -> UStart | "end" -> UEnd
+           | "cumtravel" -> UCumTravel | "wait" -> UWait
+           | _ -> ULevel (i2n (int_of_string (String.sub f 5 (String.length f - 5))))) in
+        users := !users @ [{ ua_field = field; ua_max = z_of_string mx; ua_vehicle_level = (vl = "1"); ua_temporal = (tp = "1") }]
     | "opt" :: r -> opts := Some (parse_opts r)
     | "stop" :: r -> stops := parse_stop r :: !stops
     | "veh" :: r -> vehs := parse_vehicle r :: !vehs
@@ -163,7 +171,7 @@ let run_engine (id, lines) =
     | "drow" :: r -> drows := List.map z_of_string r :: !drows
     | "xrow" :: r -> xrows := List.map z_of_string r :: !xrows
     | "build" :: _ ->
-        let i = { in_stops = List.rev !stops; in_vehicles = List.rev !vehs; in_units = List.rev !units;
+        let i = { in_user = !users; in_stops = List.rev !stops; in_vehicles = List.rev !vehs; in_units = List.rev !units;
                   in_duration = List.rev !drows; in_distance = List.rev !xrows; in_nres = i2n !nres;
                   in_opts = (match !opts with Some o -> o | None -> failwith "no opt") } in
         inp := Some i;
